@@ -35,7 +35,16 @@ def names_scenario(sid, hist, rng, lag):
     for h in hist:
         if h["k"] == "apply":
             name = spell.setdefault(h["c"], rng.choice(SPELL[h["c"]]))
-            al = [rng.choice(SPELL[a]) for a in sorted(h["al"])]
+            # an abstract alias is present when ANY spelling of it is listed: one spelling, or several spellings of the same name
+            # in one object (admission only looks at OTHER clusters), re-chosen at every version; sometimes the cluster also
+            # lists its own name in another spelling
+            al = []
+            for a in sorted(h["al"]):
+                sp = SPELL[a]
+                al += [rng.choice(sp)] if rng.random() < 0.6 else list(sp)
+            if rng.random() < 0.25:
+                al.append(rng.choice(SPELL[h["c"]]))
+            rng.shuffle(al)
             o = dict(cur.get(h["c"]) or obj(name, rng), aliases=al)
             cur[h["c"]] = o
             steps.append({"k": "apply", "obj": o})
